@@ -155,6 +155,7 @@ class ForecasterOnePhase:
             cum_production,
             p0,
             bounds=bounds,
+            gtol=None,  # an absolute gradient tolerance is not invariant to the scale of M
         )
         self.time_on_production = time_on_production
         self.cum_production = cum_production
